@@ -22,6 +22,10 @@ UNIT_CELLS = {
     # species interleaved: A B A B in a doubled cell that is *given* as the unit cell
     "inter4": (["Na", "Cl", "Na", "Cl"], [[8.0, 0, 0], [0, 4.0, 0], [0, 0, 4.0]],
                [[0, 0, 0], [0.25, 0.5, 0.5], [0.5, 0, 0], [0.75, 0.5, 0.5]], None),
+    # the same rock-salt conventional cell with the centring-equivalent atoms interleaved (Na Cl Na Cl ...): the images of one primitive
+    # atom are then not a contiguous block of supercell indices
+    "nacl8i": (["Na", "Cl"] * 4, [[5.6, 0, 0], [0, 5.6, 0], [0, 0, 5.6]],
+               [[0, 0, 0], [0.5, 0.5, 0.5], [0, 0.5, 0.5], [0.5, 0, 0], [0.5, 0, 0.5], [0, 0.5, 0], [0.5, 0.5, 0], [0, 0, 0.5]], "F"),
     "nacl8": (["Na"] * 4 + ["Cl"] * 4, [[5.6, 0, 0], [0, 5.6, 0], [0, 0, 5.6]],
               [[0, 0, 0], [0, 0.5, 0.5], [0.5, 0, 0.5], [0.5, 0.5, 0],
                [0.5, 0.5, 0.5], [0.5, 0, 0], [0, 0.5, 0], [0, 0, 0.5]], "F"),
